@@ -126,7 +126,8 @@ func genFloat64(t *rapid.T, label string) float64 {
 
 var strAlphabet = []rune("abcxyzABZ019 _-+*/<>=!&|().,;:{}[]@#$%^~'éß中😀")
 
-var strPool = []string{"", "a", "ab", "abc", "b", "B", "a ", "é", "ab0", "10", "9"}
+var strPool = []string{"", "a", "ab", "abc", "b", "B", "a ", "é", "ab0", "10", "9",
+	"a // not a comment", "//", "end", "rule", "true", "@name", " lead", "{ }", "1 + 2", "x = 1", "\\n", "tab\there"}
 
 func genStr(t *rapid.T, label string) string {
 	if pct(t, label+"_pool", 55) {
@@ -592,6 +593,9 @@ func genLayout(t *rapid.T, p int) []byte {
 	out := make([]byte, n)
 	for i := range out {
 		out[i] = byte(uni(t, "lay", 0, 29))
+		if pct(t, "lay_ext", 20) {
+			out[i] = byte(uni(t, "lay_x", 100, 159)) // tabs, CR LF, keywords in upper / title case
+		}
 	}
 	return out
 }
